@@ -44,7 +44,7 @@ func main() {
 		props := fs.String("props", "", "comma-separated property ids (clauses tagged with them plus untagged ones)")
 		keep := fs.Bool("keep", false, "keep SMT files")
 		timeout := fs.Int("timeout", 20, "per-obligation solver timeout (s)")
-		mode := fs.String("mode", "seq", "seq|conc|safety")
+		mode := fs.String("mode", "seq", "seq|conc|safety|race")
 		verbose := fs.Bool("v", false, "verbose")
 		fs.Parse(os.Args[3:])
 		t0 := time.Now()
@@ -63,6 +63,7 @@ func main() {
 		}
 		m.Concurrent = *mode == "conc"
 		m.Safety = *mode == "safety"
+		m.Race = *mode == "race"
 		var vcs []*VC
 		for _, fc := range eng.db.order {
 			if ok, _ := regexp.MatchString(os.Args[2], fc.Key); fc.Kind != "func" || (fc.Trusted && !(m.Safety && !fc.Reflective)) || !(ok || strings.Contains(fc.Key, os.Args[2])) {
